@@ -514,8 +514,8 @@ func TestVerifC06(t *testing.T) {
 	copy1 := runPairs("base", descs, func(a c06Desc) bool { return txAll || (a.Signer == 0 && a.Height == 1) })
 	if r.Thorough() && atomic.LoadInt32(&stop) == 0 {
 		// extended universe: 3 signers x 3 heights x 3 rounds x 4 nids; tx points on
-		// the slice whose first message is (k1, height 1, round 0)
-		runPairs("extended", c06Universe(3, 3, 3, 4), func(a c06Desc) bool { return a.Signer == 0 && a.Height == 1 && a.Round == 0 })
+		// the slice whose first message is (k1, height 1)
+		runPairs("extended", c06Universe(3, 3, 3, 4), func(a c06Desc) bool { return a.Signer == 0 && a.Height == 1 })
 	}
 	n := len(descs)
 	complete := stop == 0
